@@ -206,7 +206,7 @@ def drive_hist(rec, hists):
                 rec.violation("%s returned different bytes than an earlier identical call (history dependence)" % (key,),
                               {"call": c, "after_calls": ncalls})
             # the same logical call on a freshly built table, other offset / prefill
-            if rng.random() < 0.5:
+            if c.get("fresh") or rng.random() < 0.5:
                 try:
                     fo = exec_call(L, c, True, rng.choice([0, 8, 24, 56]), rng.choice([0x00, 0xFF]), rec.seed)
                 except OutOfExtent:
@@ -303,6 +303,14 @@ def run(chk, replay=None):
                                                           "cplx_fftvec_addmul_simple", "reim4_fftvec_mul_simple", "reim4_fftvec_addmul_simple")]
     tr = [{"f": f, "m": mm, "div": 0, "ovh": 0} for mm in range(0, 7) for f in ("reim_fft_simple", "reim_ifft_simple", "cplx_fft_simple", "cplx_ifft_simple")]
     hists.insert(0, pw + tr + pw)
+    # every convenience function over every dimension, up and then down, each call compared with a freshly built table: the slot a
+    # dimension lands in must be its own, whatever was used before
+    allf = ["reim_fft_simple", "reim_ifft_simple", "reim_fftvec_mul_simple", "reim_fftvec_addmul_simple", "reim_from_znx64_simple",
+            "reim_to_znx64_simple", "cplx_fft_simple", "cplx_ifft_simple", "cplx_fftvec_mul_simple", "cplx_fftvec_addmul_simple",
+            "cplx_from_znx32_simple", "cplx_from_tnx32_simple", "cplx_to_tnx32_simple", "reim4_fftvec_mul_simple", "reim4_fftvec_addmul_simple",
+            "reim4_from_cplx_simple", "reim4_to_cplx_simple"]
+    dims = list(range(0, 17 if not quick else 15)) + ([16] if quick else [])
+    hists.insert(1, [{"f": f, "m": mm, "div": 2, "ovh": 2, "fresh": True} for mm in dims + dims[::-1] for f in allf])
     # directed histories of the two functions whose thread-local table is keyed by (m, divisor, bound / overhead): a long random walk over
     # a small key space visits (almost) every ordered triple of keys, i.e. every way a stale key component can be left behind
     rngd = random.Random(chk.seed * 5 + 1)
